@@ -120,7 +120,7 @@ func (g *gen) expr(t string, asset string, d int) J {
 		}
 		return eStr(pick(r, []string{"k", "k2", "hello"}))
 	case "number":
-		if vs := g.varsOf("number"); len(vs) > 0 && r.Intn(4) == 0 {
+		if vs := g.varsOf("number"); len(vs) > 0 && (r.Intn(4) == 0 || (g.cfg.monVars && r.Intn(2) == 0)) {
 			return eVar(pick(r, vs))
 		}
 		if g.cfg.infix && d > 0 && r.Intn(5) == 0 {
@@ -387,7 +387,7 @@ func (g *gen) declareVars(c *Case) {
 	for vi := 0; vi < nv; vi++ {
 		t := pick(r, []string{"account", "asset", "number", "monetary", "portion", "string", "account", "monetary"})
 		if cfg.monVars && r.Intn(2) == 0 {
-			t = "monetary"
+			t = pick(r, []string{"monetary", "monetary", "number"})
 		}
 		name := fmt.Sprintf("v%c", 'a'+vi)
 		var val J
